@@ -1036,6 +1036,7 @@ template <class T> static void cap_case(Src& s, Ctx& ctx, const char* cls) {
             bool want = (model >> bit) & 1;
             bool got = (cp.capabilities().*CAPS[j].get)();
             if (i && j == k) VCHECK(ctx, got == want, sig + ":getter-differs", hist << ": " << CAPS[j].name << "() returns " << got);
+            else if (!i) VCHECK(ctx, got == want, sig + ":getter-disagrees-with-wire:" + CAPS[j].name, hist << ": " << CAPS[j].name << "() returns " << got << " but the specified wire bit B" << bit << " is " << want);
             else VCHECK(ctx, got == want, sig + ":neighbour-changed:" + CAPS[j].name, hist << ": " << CAPS[j].name << "() returns " << got << ", expected " << want);
         }
         // every other getter of the frame keeps its value
